@@ -418,6 +418,13 @@ def j_ix(I, args, kw):
 def j_setxor1d(I, args, kw):
     it = _I()
     a, b = args
+    if isinstance(a, it.IdxArr) and a.kind == "arange" and isinstance(b, it.IdxArr) and b.kind == "arange" and (a.lo is None or D(a.lo).is_zero()):
+        # complement of a contiguous prefix / suffix range is the other contiguous range
+        blo = D(b.lo or 0)
+        if blo.is_zero():
+            return it.IdxArr(f"arange({b.size},{a.size})", a.size - b.size, kind="arange", lo=b.size)
+        if blo + b.size == a.size:
+            return it.IdxArr(f"arange(0,{blo})", blo, kind="arange", lo=D(0))
     if isinstance(a, it.IdxArr) and a.kind == "arange" and isinstance(b, it.IdxArr):
         # complement of b in arange(n), ascending (library contract of setxor1d for b subset of a)
         return it.IdxArr(f"compl({b.name}|{a.size})", a.size - b.size, kind="generic")
